@@ -12,7 +12,8 @@ A network description is
 or {"fill": v}.
 Optional fields (only written when the key is present, so descriptions without them build byte-identically):
 tensor  "min"/"max" (float lists of the quantisation table, with or without "scale"), "shape_signature" (int list),
-        "has_rank" (bool), "is_variable" (bool), "buffer_of" (index of an earlier tensor whose buffer is shared);
+        "qpresent" (list: exactly these members of scale / zp / min / max / qdim are stored in the quantisation table,
+        [] = an empty table), "has_rank" (bool), "is_variable" (bool), "buffer_of" (index of an earlier tensor whose buffer is shared);
 operator inputs / outputs / intermediates may contain -1 (omitted optional operand), "mutating_variable_inputs"
         (bool list); option values may be ints / bools / floats, int lists (int32 vector), {"f32": [..]} (float
         vector) or str (string);
@@ -90,7 +91,20 @@ def build(net):
         name = b.CreateString(t["name"])
         shape = vec("i32", t["shape"]) if t.get("shape") is not None else None
         q = None
-        if t.get("scale") is not None or t.get("min") is not None or t.get("max") is not None:
+        if t.get("qpresent") is not None:
+            # explicit member list (subset of scale / zp / min / max / qdim): a table with exactly these members, values
+            # from the usual keys; [] = an empty table.  (A scale without a zero point, a zero point alone ... are valid.)
+            pres = set(t["qpresent"])
+            vs = {k_: vec("i64" if k_ == "zp" else "f32", t[k_]) for k_ in ("min", "max", "scale", "zp") if k_ in pres}
+            QuantizationParameters.Start(b)
+            for k_, add in (("min", QuantizationParameters.AddMin), ("max", QuantizationParameters.AddMax),
+                            ("scale", QuantizationParameters.AddScale), ("zp", QuantizationParameters.AddZeroPoint)):
+                if k_ in vs:
+                    add(b, vs[k_])
+            if "qdim" in pres:
+                QuantizationParameters.AddQuantizedDimension(b, t["qdim"])
+            q = QuantizationParameters.End(b)
+        elif t.get("scale") is not None or t.get("min") is not None or t.get("max") is not None:
             mn = vec("f32", t["min"]) if t.get("min") is not None else None
             mx = vec("f32", t["max"]) if t.get("max") is not None else None
             sc = zp = None
